@@ -62,6 +62,10 @@ func (b *builder) base(o baseOpt) {
 	b.prefix = pick(r, "192.168.1", "10.0.0", "172.16.254")
 	sc.HostIP = fmt.Sprintf("%s.%d", b.prefix, 2+r.Intn(90))
 	sc.Bcast = []string{b.prefix + ".255"}
+	if r.Intn(2) == 0 {
+		// multi-homed client host: the second address is never the one the kernel would pick by itself
+		sc.HostIP2 = fmt.Sprintf("%s.%d", b.prefix, 93+r.Intn(6))
+	}
 
 	n := o.minCtl
 	if o.maxCtl > o.minCtl {
@@ -113,6 +117,13 @@ func (b *builder) base(o baseOpt) {
 			c.Bind = fmt.Sprintf("%s:%d", pick(r, "0.0.0.0", sc.HostIP), fixedPort)
 		} else {
 			c.Bind = pick(r, "", "0.0.0.0:0", sc.HostIP+":0")
+		}
+		if sc.HostIP2 != "" && r.Intn(3) == 0 {
+			if ap, err := netip.ParseAddrPort(c.Bind); err == nil {
+				c.Bind = fmt.Sprintf("%s:%d", sc.HostIP2, ap.Port())
+			} else {
+				c.Bind = sc.HostIP2 + ":0"
+			}
 		}
 		c.Broadcast = pick(r, "", b.prefix+".255:60000", b.prefix+".255:60000", "255.255.255.255:60000", b.prefix+".255:60005")
 		c.Listen = fmt.Sprintf("%s:%d", pick(r, "0.0.0.0", sc.HostIP), 60010+i)
